@@ -8,6 +8,7 @@ import (
 	"fmt"
 	"hash/fnv"
 	"sort"
+	"strconv"
 
 	"github.com/vektah/gqlparser/v2"
 	"github.com/vektah/gqlparser/v2/ast"
@@ -70,7 +71,7 @@ func (e *Executor) Execute(doc *ast.QueryDocument, opName *string, vars map[stri
 		res.Errors = append(res.Errors, err.Error())
 		return res
 	}
-	coerced, verr := validator.VariableValues(e.Schema, op, vars)
+	coerced, verr := validator.VariableValues(e.Schema, op, numericIDs(op, vars))
 	if verr != nil {
 		res.Errors = append(res.Errors, "variables: "+verr.Error())
 		return res
@@ -98,6 +99,55 @@ func (e *Executor) Execute(doc *ast.QueryDocument, opName *string, vars map[stri
 	}
 	res.Data = data
 	return res
+}
+
+// numericIDs: an ID may be given as a JSON number (the specification accepts integers for ID); gqlparser's coercion
+// only takes strings and Go ints, so numbers of ID-typed variables are turned into their decimal text first.
+func numericIDs(op *ast.OperationDefinition, vars map[string]interface{}) map[string]interface{} {
+	var out map[string]interface{}
+	for _, vd := range op.VariableDefinitions {
+		if vd.Type == nil || vd.Type.Name() != "ID" {
+			continue
+		}
+		v, ok := vars[vd.Variable]
+		if !ok {
+			continue
+		}
+		nv, changed := idText(v)
+		if !changed {
+			continue
+		}
+		if out == nil {
+			out = make(map[string]interface{}, len(vars))
+			for k, x := range vars {
+				out[k] = x
+			}
+		}
+		out[vd.Variable] = nv
+	}
+	if out == nil {
+		return vars
+	}
+	return out
+}
+
+func idText(v interface{}) (interface{}, bool) {
+	switch x := v.(type) {
+	case float64:
+		return strconv.FormatFloat(x, 'f', -1, 64), true
+	case json.Number:
+		return x.String(), true
+	case []interface{}:
+		changed := false
+		res := make([]interface{}, len(x))
+		for i, e := range x {
+			var c bool
+			res[i], c = idText(e)
+			changed = changed || c
+		}
+		return res, changed
+	}
+	return v, false
 }
 
 type object struct {
